@@ -18,11 +18,11 @@
   (libm `atan2`).
 
   History (the model mirrors the code that exists):
-  * up to /repo a39176c6 `from_svg_arc` took its angles with euclid's `angle_from_x_axis`
+  * up to /repo efc24b99 `from_svg_arc` took its angles with euclid's `angle_from_x_axis`
     (`fast_atan2`, kept below because `Vector2D::angle_from_x_axis`/`angle_to` are still euclid's
     API and `Props/C13` documents why it must not be used here); the model instance was
     `fromSvgArcWith angleFromXAxis`.
-  * up to /repo a403d79f the quadratic control point was `l2.intersection(&l1).unwrap_or(from)`
+  * up to /repo 863c17b2 the quadratic control point was `l2.intersection(&l1).unwrap_or(from)`
     (`Line::intersection` on the two end tangents, `None` when `|det| <= S::EPSILON`); it is now
     `from + tangent(a1) * tan(step / 2)`.
 
@@ -157,7 +157,7 @@ def fromSvgArcWith (ang : P α → α) (a : SvgArc α) : Arc α :=
 /-- `Angle::radians(Float::atan2(v.y, v.x))` -/
 def exactAngle (v : P α) : α := Transc.atan2 v.y v.x
 
-/-- `Arc::from_svg_arc` as it is (since /repo a39176c6): angles by libm `atan2`. -/
+/-- `Arc::from_svg_arc` as it is (since /repo efc24b99): angles by libm `atan2`. -/
 def fromSvgArc (a : SvgArc α) : Arc α := fromSvgArcWith exactAngle a
 /-- `assert!(!arc.is_straight_line())` -/
 def fromSvgArcPanics (a : SvgArc α) : Bool := isStraightLine a
